@@ -225,11 +225,16 @@ def wrapping(run, repo, thorough):
             L = len(line) - (1 if line.segs and line.segs[-1].kind == 'lit' and line.segs[-1].text.endswith('\n')
                              else 0)
             limit = line_len if li == 0 else max_len
-            ntok = len(line.fields())
+            # items of a line: the tokens and the closing quotes (placed by the same greedy fill: they move to the
+            # next line when they do not fit); the opening quotes are glued to the first token and are no item
+            nq = sum(s_.text.count('"""') for s_ in line.segs if s_.kind == 'lit')
+            if li == 0 and line.segs and line.segs[0].kind == 'lit' and line.segs[0].text.startswith('"""'):
+                nq -= 1
+            ntok = len(line.fields()) + nq
             if L > limit and ntok > 1:
                 bad = (li, L, limit, ntok)
         run.check(bad is None, 'REF.wrap-width', 'io.cantera.obj_to_cti', 'line width',
-                  '[%s] line %s is %s characters long (limit %s) although it holds %s tokens'
+                  '[%s] line %s is %s characters long (limit %s) although it holds %s items (tokens, closing quotes)'
                   % ((label,) + (bad or (0, 0, 0, 0))), m, fn)
         # blanks between tokens on a line are literal separators only
         ok_sep = all(s.kind == 'field' or set(s.text) <= set(' "\n') for s in sb.segs)
